@@ -90,7 +90,12 @@ pub fn gen_text(s: &Shape, rng: &mut Rng, mode: u8, depth: usize) -> String {
             if mode > 0 && rng.chance(1, 3) {
                 return rng.pick(&["\"\"", "\"ab\"", "\"\\u00e9\\u00e9\"", "97"]).to_string();
             }
-            rng.pick(&["\"a\"", "\"\\n\"", "\"\\u00e9\"", "\"\u{4e2d}\"", "\"\\ud83d\\ude00\"", "\"\\\"\"", "\"\\u0000\""]).to_string()
+            match rng.below(4) {
+                // every control character (they must be written escaped), the short escapes, DEL
+                0 => format!("\"\\u{:04x}\"", rng.below(0x20)),
+                1 => rng.pick(&["\"\\b\"", "\"\\f\"", "\"\\t\"", "\"\\r\"", "\"\\/\"", "\"\\\\\"", "\"\u{7f}\"", "\"\\u007f\"", "\"\u{80}\"", "\"\u{7ff}\"", "\"\u{800}\"", "\"\u{ffff}\"", "\"\u{10000}\"", "\"\u{10ffff}\"", "\"\u{2028}\""]).to_string(),
+                _ => rng.pick(&["\"a\"", "\"\\n\"", "\"\\u00e9\"", "\"\u{4e2d}\"", "\"\\ud83d\\ude00\"", "\"\\\"\"", "\"\\u0000\""]).to_string(),
+            }
         }
         Shape::Str => str_text(rng),
         Shape::Unit => "null".to_string(),
@@ -355,6 +360,49 @@ pub struct FlatB<'a> {
     pub rest: FlatInnerB<'a>,
 }
 
+// every kind of payload behind the containers serde deserializes through its buffered `Content`: what the
+// deserializer's `deserialize_any` hands to the buffer (visit_unit for null, visit_u64 / visit_i64 / visit_f64,
+// visit_str, visit_seq, visit_map) decides what each payload type can be read back from
+#[derive(Debug, PartialEq)]
+pub struct Skip;
+impl<'de> Deserialize<'de> for Skip {
+    fn deserialize<D: serde::Deserializer<'de>>(d: D) -> Result<Self, D::Error> {
+        serde::de::IgnoredAny::deserialize(d).map(|_| Skip)
+    }
+}
+#[derive(Deserialize, PartialEq, Debug)]
+#[serde(untagged)]
+pub enum UntaggedP<P> {
+    Hit(P),
+    Miss(Skip),
+}
+#[derive(Deserialize, PartialEq, Debug)]
+#[serde(tag = "t")]
+pub enum InternalP<P> {
+    A { m: P },
+    B(P),
+    C { m: Option<P>, #[serde(default)] k: u8 },
+}
+#[derive(Deserialize, PartialEq, Debug)]
+#[serde(tag = "t", content = "c")]
+pub enum AdjacentP<P> {
+    A(P),
+    B { m: P },
+    C(Option<P>, u8),
+}
+#[derive(Deserialize, PartialEq, Debug)]
+pub struct FlatInnerP<P> {
+    pub m: P,
+    #[serde(default)]
+    pub k: Option<u8>,
+}
+#[derive(Deserialize, PartialEq, Debug)]
+pub struct FlatP<P> {
+    pub id: u32,
+    #[serde(flatten)]
+    pub rest: FlatInnerP<P>,
+}
+
 // variants whose payload is written as null: the DOM route must not take `{"V":null}` for the unit form
 #[derive(Serialize, Deserialize, PartialEq, Debug, Clone)]
 pub enum NullPay {
@@ -389,3 +437,6 @@ pub type MapIS = BTreeMap<i32, String>;
 pub type MapBI = BTreeMap<bool, i8>;
 pub type MapKI = BTreeMap<Kind, i8>;
 pub type MapU64 = BTreeMap<u64, bool>;
+pub type MapCS = BTreeMap<char, String>;
+pub type MapI8C = BTreeMap<i8, char>;
+pub type MapI64VC = BTreeMap<i64, Vec<char>>;
